@@ -191,7 +191,17 @@ fn case_after_previous_connection(rep: &mut Rep, id: &str, seq: &[Item], plan: &
         w.viol(&["C03"], "C03/previous-connection-did-not-end".into(), "run() still pending after end-of-stream".into());
         return harvest(rep, &mut w, id);
     }
-    w.resume_full(ResumeOpts { plain: true, ..Default::default() });
+    // every second case records the disconnection first (hook H1; no session expiry interval was asked for, so the session has
+    // expired) and has two messages arrive in the same transport read as the CONNACK of the new connection: what connect()
+    // leaves in the receive buffer belongs to run()
+    let recorded = (cut + prior_sizes.len() + one_read as usize) % 2 == 1;
+    if recorded {
+        rep.add("second_connections_with_packets_behind_the_connack", 1);
+        w.resume_full(ResumeOpts { plain: false, secs_ago: 1, expect_expired: true, trailing: 2, ..Default::default() });
+        w.settle_check();
+    } else {
+        w.resume_full(ResumeOpts { plain: true, ..Default::default() });
+    }
     if w.blind {
         for v in w.viols.iter_mut() {
             if !v.props.contains(&"*") {
